@@ -126,14 +126,19 @@ func c19ValidateOpt(x *kit.Ctx, work, file, tag string, verifyOutcomeOnly bool) 
 	x.Eval(1)
 	if r.Exit != 0 {
 		msg := string(r.Stderr)
-		if derr == nil && fl.Version == 1 && strings.Contains(msg, "unexpected data after EOF: 1") {
+		if derr == nil && fl.Version == 1 {
 			// call-site specific: lib.InspectCar's trailing-data probe reads the file's untouched
-			// offset 0 after Inspect went through ReadAt; every CARv1 trips it
-			x.Fail("c19:inspect-full-v1:trailing-data-probe", "car inspect --full rejects a valid CARv1 output: %s", clipS(msg, 200))
-			// keep the rest of the oracle: plain inspect must accept
-			if r2 := drv.Car(work, nil, "inspect", file); r2.Exit != 0 {
+			// offset 0 after Inspect went through ReadAt; every CARv1 trips it. The recorded finding is
+			// keyed on the structure (a CARv1 the reference decoder accepts, refused by --full only), not
+			// on the wording of the error.
+			r2 := drv.Car(work, nil, "inspect", file)
+			x.Eval(1)
+			if r2.Exit != 0 {
+				// the plain form refuses it too: not the recorded finding
+				x.Fail("c19:inspect-full-rejects:"+tag, "car inspect --full rejects the output (reference decode: %v): %s", derr, clipS(msg, 300))
 				x.Fail("c19:inspect-rejects:"+tag, "car inspect rejects the output: %s", clipS(string(r2.Stderr), 300))
 			} else {
+				x.Fail("c19:inspect-full-v1:trailing-data-probe", "car inspect --full rejects a valid CARv1 output that car inspect accepts: %s", clipS(msg, 200))
 				c19InspectReport(x, tag, string(r2.Stdout), b)
 			}
 		} else {
@@ -182,7 +187,9 @@ func c19ValidateOpt(x *kit.Ctx, work, file, tag string, verifyOutcomeOnly bool) 
 
 // c19InspectReport compares the semantic fields of an inspect report with the reference decode
 // of the inspected bytes: version, payload window, index offset and type, roots, presence of the
-// roots, block count. (The statistics lines and the layout are not judged.)
+// roots, block count. car inspect figures in the statement as an acceptor only; the labels and the
+// layout of its report are not fixed by it, so a difference is recorded as an outcome
+// (beyond-statement:inspect-report), never as a violation.
 func c19InspectReport(x *kit.Ctx, tag, stdout string, file []byte) {
 	fl, err := refcar.DecodeFile(file, true)
 	if err != nil {
@@ -247,7 +254,8 @@ func c19InspectReport(x *kit.Ctx, tag, stdout string, file []byte) {
 	sort.Strings(keys)
 	for _, k := range keys {
 		if fields[k] != want[k] {
-			x.Fail("c19:inspect-report:"+tag, "car inspect reports %q = %q, the archive has %q", k, fields[k], want[k])
+			x.Outcome("beyond-statement:inspect-report")
+			return
 		}
 	}
 	var wantRoots []string
@@ -255,7 +263,7 @@ func c19InspectReport(x *kit.Ctx, tag, stdout string, file []byte) {
 		wantRoots = append(wantRoots, cidStr(rt))
 	}
 	if strings.Join(roots, ",") != strings.Join(wantRoots, ",") {
-		x.Fail("c19:inspect-report:"+tag, "car inspect reports roots %v, the archive has %v", roots, wantRoots)
+		x.Outcome("beyond-statement:inspect-report")
 	}
 }
 
@@ -353,9 +361,9 @@ func runC19(c any, x *kit.Ctx) {
 	case "controls":
 		e.controls()
 	}
-	// no sub-command may touch its input
+	// no sub-command touches its input today; the statement speaks of the outputs only
 	if now, err := os.ReadFile(e.path("in.car")); err != nil || !bytes.Equal(now, e.in) {
-		x.Fail("c19:input-modified:"+e.tag, "the input archive was modified by the command (read error %v, %d bytes now, %d before)", err, len(now), len(e.in))
+		x.Outcome("beyond-statement:input-modified")
 	}
 	x.State(fmt.Sprintf("%+v", cs))
 	x.Outcome(cmd)
@@ -389,43 +397,69 @@ func (e *c19Env) index(arg string) {
 		x.Fail("c19:cmd-failed:"+tag, "car index failed on a valid archive: %s", clipS(string(r.Stderr), 300))
 		return
 	}
-	c19Validate(x, e.work, "out.car", tag)
-	out, _ := os.ReadFile(e.path("out.car"))
-	if e.cs.IO {
-		r2 := e.run(nil, append(append([]string{}, args...), "in.car")...)
-		if r2.Exit != 0 || !bytes.Equal(r2.Stdout, out) {
-			x.Fail("c19:stdout-form:"+tag, "car index to stdout (exit %d, %d bytes) differs from the file output (%d bytes): %s", r2.Exit, len(r2.Stdout), len(out), clipS(string(r2.Stderr), 200))
-		}
-	}
-	fl, err := refcar.DecodeFile(out, false)
-	if err != nil {
-		return
-	}
-	if !bytes.Equal(fl.PayloadRaw, e.payload) {
-		x.Fail("c19:index-payload:"+tag, "car index changed the payload")
-	}
-	switch arg {
-	case "v1":
-		if fl.Version != 1 {
-			x.Fail("c19:index-version:"+tag, "index --version 1 produced version %d", fl.Version)
-		}
-	case "none":
-		if fl.Version != 2 || fl.HasIndex {
-			x.Fail("c19:index-none:"+tag, "index --codec none: version %d hasIndex %v", fl.Version, fl.HasIndex)
-		}
-	default:
-		if fl.Version != 2 || !fl.HasIndex {
-			x.Fail("c19:index-missing:"+tag, "no index in output")
+	// content: the oracle on the emitted bytes; sig maps an assertion to its signature (the stdout form
+	// reports under c19:stdout-form)
+	content := func(out []byte, sig func(string) string) {
+		fl, err := refcar.DecodeFile(out, false)
+		if err != nil {
 			return
 		}
-		if fl.IndexCodec != wantCodec {
-			x.Fail("c19:index-codec:"+tag, "index codec 0x%x in the output, 0x%x requested", fl.IndexCodec, wantCodec)
+		if !bytes.Equal(fl.PayloadRaw, e.payload) {
+			x.Fail(sig("c19:index-payload"), "car index changed the payload")
 		}
-		got := recMultiset(fl.IndexCodec, fl.Index)
-		if got != recMultiset(fl.IndexCodec, refcar.RecordsOf(e.pl, false)) && got != recMultiset(fl.IndexCodec, refcar.RecordsOf(e.pl, true)) {
-			x.Fail("c19:index-records:"+tag, "index {%s} is not the index of the payload (with or without identity entries)", clipS(got, 400))
+		switch arg {
+		case "v1":
+			if fl.Version != 1 {
+				x.Fail(sig("c19:index-version"), "index --version 1 produced version %d", fl.Version)
+			}
+		case "none":
+			if fl.Version != 2 || fl.HasIndex {
+				x.Fail(sig("c19:index-none"), "index --codec none: version %d hasIndex %v", fl.Version, fl.HasIndex)
+			}
+		default:
+			if fl.Version != 2 || !fl.HasIndex {
+				x.Fail(sig("c19:index-missing"), "no index in output")
+				return
+			}
+			if fl.IndexCodec != wantCodec {
+				x.Fail(sig("c19:index-codec"), "index codec 0x%x in the output, 0x%x requested", fl.IndexCodec, wantCodec)
+			}
+			got := recMultiset(fl.IndexCodec, fl.Index)
+			if got != recMultiset(fl.IndexCodec, refcar.RecordsOf(e.pl, false)) && got != recMultiset(fl.IndexCodec, refcar.RecordsOf(e.pl, true)) {
+				x.Fail(sig("c19:index-records"), "index {%s} is not the index of the payload (with or without identity entries)", clipS(got, 400))
+			}
 		}
 	}
+	c19Validate(x, e.work, "out.car", tag)
+	out, _ := os.ReadFile(e.path("out.car"))
+	content(out, func(s string) string { return s + ":" + tag })
+	if e.cs.IO {
+		r2 := e.run(nil, append(append([]string{}, args...), "in.car")...)
+		if r2.Exit != 0 {
+			x.Fail("c19:stdout-form:"+tag, "car index to stdout failed (exit %d): %s", r2.Exit, clipS(string(r2.Stderr), 200))
+		} else if !bytes.Equal(r2.Stdout, out) {
+			// not byte-equal to the file form (the statement does not ask for that): judged on its own
+			x.Outcome("beyond-statement:alternate-form-differs")
+			e.alt(r2.Stdout, "out-stdout.car", "stdout-form", content)
+		}
+	}
+}
+
+// alt judges the output of an alternate (stdout / stdin) form of a command that is not byte-equal to the
+// file form: the acceptors and the content oracle, reported under the form's signature.
+func (e *c19Env) alt(out []byte, file, form string, content func([]byte, func(string) string)) {
+	sig := "c19:" + form + ":" + e.tag
+	if out != nil {
+		os.WriteFile(e.path(file), out, 0o644)
+	} else {
+		out, _ = os.ReadFile(e.path(file))
+	}
+	if _, err := refcar.DecodeFile(out, false); err != nil {
+		e.x.Fail(sig, "the %s output is not a well-formed archive: %v", form, err)
+		return
+	}
+	c19Validate(e.x, e.work, file, e.tag)
+	content(out, func(string) string { return sig })
 }
 
 func (e *c19Env) indexCreate(arg string) {
@@ -446,24 +480,30 @@ func (e *c19Env) indexCreate(arg string) {
 		x.Fail("c19:cmd-failed:"+tag, "car index create failed: %s", clipS(string(r.Stderr), 300))
 		return
 	}
-	out, _ := os.ReadFile(e.path("out.idx"))
-	if e.cs.IO {
-		r2 := e.run(nil, args...)
-		if r2.Exit != 0 || !bytes.Equal(r2.Stdout, out) {
-			x.Fail("c19:stdout-form:"+tag, "car index create to stdout (exit %d, %d bytes) differs from the file output (%d bytes)", r2.Exit, len(r2.Stdout), len(out))
+	content := func(out []byte, sig func(string) string) {
+		cn, recs, err := refcar.DecodeIndex(out)
+		if err != nil {
+			x.Fail(sig("c19:detached-index-malformed"), "detached index malformed: %v", err)
+			return
+		}
+		if cn != wantCodec {
+			x.Fail(sig("c19:detached-index-codec"), "detached index has codec 0x%x, 0x%x requested", cn, wantCodec)
+		}
+		got := recMultiset(cn, recs)
+		if got != recMultiset(cn, refcar.RecordsOf(e.pl, false)) && got != recMultiset(cn, refcar.RecordsOf(e.pl, true)) {
+			x.Fail(sig("c19:detached-index-records"), "detached index {%s} is not the index of the payload", clipS(got, 400))
 		}
 	}
-	cn, recs, err := refcar.DecodeIndex(out)
-	if err != nil {
-		x.Fail("c19:detached-index-malformed:"+tag, "detached index malformed: %v", err)
-		return
-	}
-	if cn != wantCodec {
-		x.Fail("c19:detached-index-codec:"+tag, "detached index has codec 0x%x, 0x%x requested", cn, wantCodec)
-	}
-	got := recMultiset(cn, recs)
-	if got != recMultiset(cn, refcar.RecordsOf(e.pl, false)) && got != recMultiset(cn, refcar.RecordsOf(e.pl, true)) {
-		x.Fail("c19:detached-index-records:"+tag, "detached index {%s} is not the index of the payload", clipS(got, 400))
+	out, _ := os.ReadFile(e.path("out.idx"))
+	content(out, func(s string) string { return s + ":" + tag })
+	if e.cs.IO {
+		r2 := e.run(nil, args...)
+		if r2.Exit != 0 {
+			x.Fail("c19:stdout-form:"+tag, "car index create to stdout failed (exit %d): %s", r2.Exit, clipS(string(r2.Stderr), 200))
+		} else if !bytes.Equal(r2.Stdout, out) {
+			x.Outcome("beyond-statement:alternate-form-differs")
+			content(r2.Stdout, func(string) string { return "c19:stdout-form:" + tag })
+		}
 	}
 }
 
@@ -472,11 +512,33 @@ func (e *c19Env) detach(cmd string) {
 	e.stale("out.idx")
 	r := e.run(nil, "detach-index", "in.car", "out.idx")
 	hasIdx := cs.Cont == "v2" || cs.Cont == "v2pad"
-	if !hasIdx {
-		if r.Exit == 0 {
-			x.Fail("c19:detach-no-index:"+tag, "detach-index succeeded on an archive without index")
+	// isIndexOfPayload: a well-formed index whose records are those of the payload (with or without identity entries)
+	isIndexOfPayload := func(b []byte, codec uint64) string {
+		cn, recs, err := refcar.DecodeIndex(b)
+		if err != nil {
+			return fmt.Sprintf("malformed: %v", err)
 		}
-		x.Outcome("refused")
+		if codec != 0 && cn != codec {
+			return fmt.Sprintf("codec 0x%x, the embedded index has 0x%x", cn, codec)
+		}
+		got := recMultiset(cn, recs)
+		if got != recMultiset(cn, refcar.RecordsOf(e.pl, false)) && got != recMultiset(cn, refcar.RecordsOf(e.pl, true)) {
+			return fmt.Sprintf("records {%s} are not those of the payload", clipS(got, 400))
+		}
+		return ""
+	}
+	if !hasIdx {
+		// the statement does not demand a refusal here: a refusal emits nothing; an index that is emitted
+		// nevertheless must be the regenerated one
+		if r.Exit != 0 {
+			x.Outcome("refused")
+			return
+		}
+		x.Outcome("detach-index-less-accepted")
+		out, _ := os.ReadFile(e.path("out.idx"))
+		if d := isIndexOfPayload(out, 0); d != "" {
+			x.Fail("c19:detach-no-index:"+tag, "detach-index succeeded on an archive without index and what it emitted is not the index of the payload: %s", d)
+		}
 		return
 	}
 	if r.Exit != 0 {
@@ -485,31 +547,43 @@ func (e *c19Env) detach(cmd string) {
 	}
 	out, _ := os.ReadFile(e.path("out.idx"))
 	fin, _ := refcar.DecodeFile(e.in, false)
+	// "an index equal to a regenerated one": same codec, same records; the byte layout of equal records is not fixed
 	if !bytes.Equal(out, fin.IndexRaw) {
-		x.Fail("c19:detach-bytes:"+tag, "detached index differs from the embedded index bytes")
+		if d := isIndexOfPayload(out, fin.IndexCodec); d != "" {
+			x.Fail("c19:detach-bytes:"+tag, "detached index is not the embedded index: %s", d)
+		} else {
+			x.Outcome("detach-reserialized")
+		}
 	}
 	if cs.IO && cmd == "detach" {
 		r2 := e.run(nil, "detach-index", "in.car")
-		if r2.Exit != 0 || !bytes.Equal(r2.Stdout, fin.IndexRaw) {
-			x.Fail("c19:stdout-form:"+tag, "detach-index to stdout (exit %d, %d bytes) differs from the embedded index (%d bytes)", r2.Exit, len(r2.Stdout), len(fin.IndexRaw))
+		if r2.Exit != 0 {
+			x.Fail("c19:stdout-form:"+tag, "detach-index to stdout failed (exit %d): %s", r2.Exit, clipS(string(r2.Stderr), 200))
+		} else if !bytes.Equal(r2.Stdout, fin.IndexRaw) {
+			if d := isIndexOfPayload(r2.Stdout, fin.IndexCodec); d != "" {
+				x.Fail("c19:stdout-form:"+tag, "detach-index to stdout (%d bytes) is not the embedded index: %s", len(r2.Stdout), d)
+			}
 		}
 	}
 	if cmd == "detach-list" {
 		l := e.run(nil, "detach-index", "list", "out.idx")
+		// detach-index list prints a listing, it emits neither an archive nor an index: its text, whether a
+		// digest-only index can be listed, and the agreement of its stdin forms are not the statement's
+		// subject and are recorded as outcomes
 		if cs.IO {
 			// the index on stdin: through a pipe and redirected from the file
 			l2 := e.run(out, "detach-index", "list")
 			l3 := drv.CarStdinFile(e.work, "out.idx", "detach-index", "list")
 			x.Eval(1)
-			for i, o := range []drv.RunResult{l2, l3} {
+			for _, o := range []drv.RunResult{l2, l3} {
 				if (o.Exit == 0) != (l.Exit == 0) || !bytes.Equal(o.Stdout, l.Stdout) {
-					x.Fail("c19:stdin-form:"+tag, "detach-index list from stdin (%s; exit %d) differs from the file form (exit %d): %s", []string{"pipe", "file"}[i], o.Exit, l.Exit, clipS(string(o.Stderr), 200))
+					x.Outcome("beyond-statement:detach-list-stdin-form")
 				}
 			}
 		}
-		if cs.Cont == "v2pad" { // car-index-sorted is not iterable: refusal expected
+		if cs.Cont == "v2pad" { // car-index-sorted is not iterable today
 			if l.Exit == 0 {
-				x.Fail("c19:detach-list-sorted:"+tag, "listing a digest-only index succeeded")
+				x.Outcome("beyond-statement:detach-list-sorted-accepted")
 			}
 			return
 		}
@@ -528,7 +602,7 @@ func (e *c19Env) detach(cmd string) {
 		sort.Strings(want)
 		sort.Strings(got)
 		if l.Exit != 0 || strings.Join(got, "|") != strings.Join(want, "|") {
-			x.Fail("c19:detach-list:"+tag, "detach-index list prints %v (exit %d) want %v", clipL(got), l.Exit, clipL(want))
+			x.Outcome("beyond-statement:detach-list-text")
 		}
 	}
 }
@@ -594,6 +668,9 @@ func (e *c19Env) filter(arg string) {
 	var lines []string
 	selected := map[string]bool{}
 	for _, s := range sel {
+		if selected[string(s)] {
+			continue // a block stored twice in the source is still named once: repeated entries are the messy list's business
+		}
 		lines = append(lines, cidStr(s))
 		selected[string(s)] = true
 	}
@@ -648,41 +725,62 @@ func (e *c19Env) filter(arg string) {
 			// a documented refusal: nothing is emitted, so the existing archive must be as it was
 			now, _ := os.ReadFile(e.path("out.car"))
 			if !bytes.Equal(now, preFile) {
-				x.Fail("c19:append-refused-modified:"+tag, "filter --append refused (%s) but changed the existing archive (%d -> %d bytes)", clipS(string(r.Stderr), 120), len(preFile), len(now))
+				// a side effect of a refusal; the statement speaks of what a run that goes through emits
+				x.Outcome("beyond-statement:append-refused-modified")
 			}
 			x.Outcome("append-refused:" + target)
+			return
+		}
+		if c19Var(cs.Var, "list") == "messy" || len(lines) == 0 {
+			// the shape of the CID list (CRLF, padding, blank lines, a repeated entry, no final newline; no entry
+			// at all) is not among the configurations the statement quantifies over: a refusal emits nothing
+			x.Outcome("beyond-statement:filter-list-refused")
 			return
 		}
 		x.Fail("c19:cmd-failed:"+tag, "car filter failed: %s", clipS(string(r.Stderr), 300))
 		return
 	}
+	content := func(out []byte, sig func(string) string) {
+		e.filterContent(out, sig, preBlocks, preRoots, selected, inverse, appendMode, v1, target)
+	}
 	c19Validate(x, e.work, "out.car", tag)
 	out, _ := os.ReadFile(e.path("out.car"))
+	content(out, func(s string) string { return s + ":" + tag })
 	if cs.IO && !appendMode {
 		// the CID list on stdin (pipe) instead of --cid-file
 		a2 := append(append([]string{"filter"}, flags...), "in.car", "out2.car")
 		r2 := e.run(list, a2...)
 		out2, _ := os.ReadFile(e.path("out2.car"))
-		if r2.Exit != 0 || !bytes.Equal(out2, out) {
-			x.Fail("c19:stdin-form:"+tag, "car filter with the CID list on stdin (exit %d, %d bytes) differs from the --cid-file form (%d bytes): %s", r2.Exit, len(out2), len(out), clipS(string(r2.Stderr), 200))
+		if r2.Exit != 0 {
+			x.Fail("c19:stdin-form:"+tag, "car filter with the CID list on stdin failed (exit %d): %s", r2.Exit, clipS(string(r2.Stderr), 200))
+		} else if !bytes.Equal(out2, out) {
+			x.Outcome("beyond-statement:alternate-form-differs")
+			e.alt(nil, "out2.car", "stdin-form", content)
 		}
 	}
+}
+
+// filterContent: the content oracle of one filter output.
+func (e *c19Env) filterContent(out []byte, sig func(string) string, preBlocks []refcar.Block, preRoots [][]byte, selected map[string]bool, inverse, appendMode, v1 bool, target string) {
+	x, blks := e.x, e.blks
 	fl, err := refcar.DecodeFile(out, false)
 	if err != nil {
 		return
 	}
-	// the library's answer: selected blocks in source order through the blockstore's documented rules
-	m := &model.Map{}
-	for _, b := range preBlocks {
-		m.Stored = append(m.Stored, kit.Blk{Raw: b.Cid, Data: b.Data})
-	}
+	// the statement's answer: exactly the selected blocks in source order (behind what an append target
+	// already holds). Which blockstore options the command writes with is not fixed by it, so a section
+	// stored twice, an identity block and a block under a second CID of the same multihash may each be
+	// kept or dropped: (1) the output is what the target held followed by a subsequence of the selected
+	// source sections, (2) with identity sections dropped and the first section of every multihash kept,
+	// output and selection are the same sequence.
+	full := append([]refcar.Block{}, preBlocks...)
 	for _, b := range blks {
 		if selected[string(b.Raw)] != inverse {
-			m.Put(b)
+			full = append(full, b.Ref())
 		}
 	}
-	if d := sameBlocks(c19Blocks(fl), m.RefBlocks(), true); d != "" {
-		x.Fail("c19:filter-blocks:"+tag, "filter output blocks differ from the selected blocks in source order: %s", d)
+	if d := c19FilterBlocks(c19Blocks(fl), full, len(preBlocks)); d != "" {
+		x.Fail(sig("c19:filter-blocks"), "filter output blocks differ from the selected blocks in source order: %s", d)
 	}
 	var wantRoots [][]byte
 	if appendMode {
@@ -695,14 +793,56 @@ func (e *c19Env) filter(arg string) {
 		}
 	}
 	if !sameRoots(fl.Payload.Header.Roots, wantRoots) && !(len(wantRoots) == 0 && len(fl.Payload.Header.Roots) == 0) {
-		x.Fail("c19:filter-roots:"+tag, "filter output roots %x want %x", fl.Payload.Header.Roots, wantRoots)
+		if !appendMode && sameRoots(fl.Payload.Header.Roots, e.rootRaws) {
+			// the statement does not say which of the source's roots the output lists: all of them is the other reading
+			x.Outcome("beyond-statement:filter-roots-unfiltered")
+		} else {
+			x.Fail(sig("c19:filter-roots"), "filter output roots %x want %x", fl.Payload.Header.Roots, wantRoots)
+		}
 	}
 	if appendMode && (v1 || target == "v1") {
 		return // an accepted append outside the documented domain: only validity and content are judged
 	}
 	if v1 != (fl.Version == 1) {
-		x.Fail("c19:filter-version:"+tag, "filter output version %d", fl.Version)
+		x.Fail(sig("c19:filter-version"), "filter output version %d", fl.Version)
 	}
+}
+
+// c19FilterBlocks judges the sections of a filter output against full = the append target's blocks
+// (the first npre entries) followed by every selected source section in source order.
+func c19FilterBlocks(got, full []refcar.Block, npre int) string {
+	if len(got) < npre {
+		return fmt.Sprintf("%d blocks, the append target alone held %d", len(got), npre)
+	}
+	if d := sameBlocks(got[:npre], full[:npre], true); d != "" {
+		return "the append target's blocks changed: " + d
+	}
+	// (1) a subsequence of the selection, CID and data
+	j := npre
+	for i := npre; i < len(got); i++ {
+		for j < len(full) && !(bytes.Equal(full[j].Cid, got[i].Cid) && bytes.Equal(full[j].Data, got[i].Data)) {
+			j++
+		}
+		if j == len(full) {
+			return fmt.Sprintf("block %d (CID %x, %d data bytes) is not a selected source section in source order", i, got[i].Cid, len(got[i].Data))
+		}
+		j++
+	}
+	// (2) nothing selected is lost: the first section of every multihash, identity sections aside
+	norm := func(l []refcar.Block) []refcar.Block {
+		var out []refcar.Block
+		seen := map[string]bool{}
+		for _, b := range l {
+			k := string(multihashBytes(b.Cid))
+			if model.IsIdentity(b.Cid) || seen[k] {
+				continue
+			}
+			seen[k] = true
+			out = append(out, b)
+		}
+		return out
+	}
+	return sameBlocks(norm(got), norm(full), true)
 }
 
 func (e *c19Env) getBlock() {
@@ -755,22 +895,23 @@ func (e *c19Env) list() {
 		x.Fail("c19:list:"+tag, "car list prints %v (exit %d) want scan order %v", clipL(got), r.Exit, clipL(want))
 	}
 	// and from stdin
+	sameList := func(o []byte) bool { return strings.Join(strings.Fields(string(o)), ",") == strings.Join(want, ",") }
 	r2 := e.run(e.in, "list")
-	if r2.Exit != 0 || string(r2.Stdout) != string(r.Stdout) {
-		x.Fail("c19:list-stdin:"+tag, "car list from stdin differs (exit %d): %s", r2.Exit, clipS(string(r2.Stderr), 200))
+	if r2.Exit != 0 || !sameList(r2.Stdout) {
+		x.Fail("c19:list-stdin:"+tag, "car list from stdin does not print the scan order (exit %d): %s", r2.Exit, clipS(string(r2.Stderr), 200))
 	}
 	if e.cs.IO {
 		// stdin redirected from the file; output to a file argument over a stale file
 		r3 := drv.CarStdinFile(e.work, "in.car", "list")
 		x.Eval(1)
-		if r3.Exit != 0 || string(r3.Stdout) != string(r.Stdout) {
-			x.Fail("c19:list-stdin:"+tag, "car list with stdin redirected from the file differs (exit %d): %s", r3.Exit, clipS(string(r3.Stderr), 200))
+		if r3.Exit != 0 || !sameList(r3.Stdout) {
+			x.Fail("c19:list-stdin:"+tag, "car list with stdin redirected from the file does not print the scan order (exit %d): %s", r3.Exit, clipS(string(r3.Stderr), 200))
 		}
 		os.WriteFile(e.path("out.txt"), bytes.Repeat([]byte("stale line\n"), 2000), 0o644)
 		r4 := e.run(nil, "list", "in.car", "out.txt")
 		f, _ := os.ReadFile(e.path("out.txt"))
-		if r4.Exit != 0 || string(f) != string(r.Stdout) {
-			x.Fail("c19:list-file:"+tag, "car list to a file (exit %d, %d bytes) differs from the stdout form (%d bytes)", r4.Exit, len(f), len(r.Stdout))
+		if r4.Exit != 0 || !sameList(f) {
+			x.Fail("c19:list-file:"+tag, "car list to a file (exit %d, %d bytes) does not print the scan order (stdout form: %d bytes)", r4.Exit, len(f), len(r.Stdout))
 		}
 	}
 }
@@ -791,7 +932,7 @@ func (e *c19Env) root() {
 		r3 := drv.CarStdinFile(e.work, "in.car", "root")
 		x.Eval(1)
 		for i, o := range []drv.RunResult{r2, r3} {
-			if o.Exit != 0 || string(o.Stdout) != string(r.Stdout) {
+			if o.Exit != 0 || strings.Join(strings.Fields(string(o.Stdout)), ",") != strings.Join(want, ",") {
 				x.Fail("c19:stdin-form:"+tag, "car root from stdin (%s; exit %d) prints %q, from the file %q: %s", []string{"pipe", "file"}[i], o.Exit, clipS(string(o.Stdout), 200), clipS(string(r.Stdout), 200), clipS(string(o.Stderr), 200))
 			}
 		}
@@ -806,15 +947,17 @@ func (e *c19Env) inspect() {
 		return
 	}
 	if !strings.Contains(string(r.Stdout), fmt.Sprintf("Block count: %d\n", len(e.blks))) {
-		x.Fail("c19:inspect-count:"+tag, "car inspect block count wrong: %s", clipS(string(r.Stdout), 300))
+		x.Outcome("beyond-statement:inspect-report") // the wording of the report is not the statement's subject
 	}
 	c19InspectReport(x, tag, string(r.Stdout), e.in)
 	if e.cs.IO {
 		// stdin must be seekable for inspect (it reads through ReadAt): redirected from the file
 		r2 := drv.CarStdinFile(e.work, "in.car", "inspect")
 		x.Eval(1)
-		if r2.Exit != 0 || string(r2.Stdout) != string(r.Stdout) {
-			x.Fail("c19:stdin-form:"+tag, "car inspect with stdin redirected from the file (exit %d) differs from the file form: %s", r2.Exit, clipS(string(r2.Stderr), 200))
+		if r2.Exit != 0 {
+			x.Fail("c19:stdin-form:"+tag, "car inspect with stdin redirected from the file rejects a valid input (exit %d): %s", r2.Exit, clipS(string(r2.Stderr), 200))
+		} else if string(r2.Stdout) != string(r.Stdout) {
+			x.Outcome("beyond-statement:inspect-report")
 		}
 	}
 }
@@ -850,8 +993,23 @@ func (e *c19Env) concat(arg string) {
 	out, _ := os.ReadFile(e.path("out.car"))
 	if e.cs.IO {
 		r2 := e.run(nil, append(append([]string{"concat"}, vflag...), inputs...)...)
-		if r2.Exit != 0 || !bytes.Equal(r2.Stdout, out) {
-			x.Fail("c19:stdout-form:"+tag, "car concat to stdout (exit %d, %d bytes) differs from the -o output (%d bytes)", r2.Exit, len(r2.Stdout), len(out))
+		if r2.Exit != 0 {
+			x.Fail("c19:stdout-form:"+tag, "car concat to stdout failed (exit %d): %s", r2.Exit, clipS(string(r2.Stderr), 200))
+		} else if !bytes.Equal(r2.Stdout, out) {
+			// not byte-equal to the -o form (the statement does not ask for that): judged on its own
+			x.Outcome("beyond-statement:alternate-form-differs")
+			e.alt(r2.Stdout, "out-stdout.car", "stdout-form", func(o []byte, sig func(string) string) {
+				fl, err := refcar.DecodeFile(o, false)
+				if err != nil {
+					return
+				}
+				if d := sameBlocks(c19Blocks(fl), want, true); d != "" {
+					x.Fail(sig("c19:concat-blocks"), "concat output is not the concatenation of the inputs' blocks: %s", d)
+				}
+				if !sameRoots(fl.Payload.Header.Roots, e.rootRaws) {
+					x.Fail(sig("c19:concat-roots"), "concat output roots differ from the first input's")
+				}
+			})
 		}
 	}
 	fl, err := refcar.DecodeFile(out, false)
